@@ -556,6 +556,11 @@ class Interp:
             if not self.spec:
                 self.p.oblige('type', Val.is_vint(v), node, 'operand is an int')
             return Val.i(v)
+        CS = S.UNIONS.get('ColorSpec')
+        if CS is not None and z3.is_expr(v) and v.sort() == CS:
+            if not self.spec:
+                self.p.oblige('type', CS.is_c_idx(v), node, 'colour is an index, not an RGB triple')
+            return CS.c_idx__i(v)
         self.oos(f'int expected, got {type(v).__name__}', node)
 
     def as_str(self, v, node=None):
@@ -652,6 +657,12 @@ class Interp:
         if isinstance(a, (ArrList,)) or isinstance(b, (ArrList,)):
             self.oos('equality on array-backed list', node)
         za, zb = self.z(a), self.z(b)
+        CS = S.UNIONS.get('ColorSpec')
+        if CS is not None and z3.is_expr(za) and z3.is_expr(zb):
+            if za.sort() == CS and S.is_int(zb):
+                return z3.And(CS.is_c_idx(za), CS.c_idx__i(za) == zb)
+            if zb.sort() == CS and S.is_int(za):
+                return z3.And(CS.is_c_idx(zb), CS.c_idx__i(zb) == za)
         if z3.is_expr(za) and z3.is_expr(zb):
             if za.sort() == zb.sort():
                 return za == zb
@@ -753,10 +764,56 @@ class Interp:
     def st_If(self, s):
         if self.spec:
             self.oos('if statement in spec mode (use functional form)', s)
+        if _mergeable(s):
+            return self.merged_if(s)
         if self.test(s.test):
             self.block(s.body)
         else:
             self.block(s.orelse)
+
+    def merged_if(self, s):
+        """`if c: <assignments / list appends>` without control flow: both branches are executed and the
+        locals merged with ite(c, ..) -- one path instead of two (keeps straight-line code linear)"""
+        c = self.truth(self.ev(s.test), s)
+        if isinstance(c, bool):
+            return self.block(s.body if c else s.orelse)
+        saved = dict(self.env)
+        nobl = len(self.p.obls)
+        npc = len(self.p.pc)
+
+        def run(stmts, cond):
+            self.env = dict(saved)
+            self.p.pc.append(cond)
+            self.p.solver.push()
+            self.p.solver.add(cond) if not _has_quantifier(cond) else None
+            try:
+                self.block(stmts)
+            finally:
+                self.p.solver.pop()
+                # facts assumed inside the branch hold under its condition only
+                inner = self.p.pc[npc + 1:]
+                del self.p.pc[npc:]
+                for f in inner:
+                    self.p.pc.append(z3.Implies(cond, f))
+            return self.env
+
+        env_t = run(s.body, c)
+        env_f = run(s.orelse, z3.Not(c))
+        merged = dict(saved)
+        for name in set(env_t) | set(env_f):
+            a, b = env_t.get(name), env_f.get(name)
+            if a is b:
+                merged[name] = a
+            elif name in env_t and name in env_f:
+                if z3.is_expr(self.z(a)) and z3.is_expr(self.z(b)) and self.z(a).eq(self.z(b)):
+                    merged[name] = a
+                else:
+                    merged[name] = self.ite(c, a, b, s)
+            else:
+                # defined in one branch only: usable only under that branch's condition; keep it
+                merged[name] = a if name in env_t else b
+        self.env.clear()
+        self.env.update(merged)
 
     def st_Raise(self, s):
         if s.exc is None:
@@ -1684,8 +1741,13 @@ class Interp:
             return self.w.uf('exc_str', z3.IntSort(), z3.StringSort())(x.eid)
         if isinstance(x, str) and not repr_:
             return z3.StringVal(x)
+        if isinstance(x, int) and not isinstance(x, bool) and not repr_:
+            return z3.StringVal(str(x))
         if S.is_str(x) and not repr_:
             return x
+        CS = S.UNIONS.get('ColorSpec')
+        if CS is not None and z3.is_expr(x) and x.sort() == CS:
+            return z3.IntToStr(self.as_int(x, node))
         if S.is_int(x) or isinstance(x, int):
             return z3.IntToStr(self.as_int(x)) if not isinstance(x, bool) else z3.StringVal(str(x))
         f = self.w.uf('py_repr' if repr_ else 'uf_keyword_text__Val', Val, z3.StringSort())
@@ -2116,6 +2178,11 @@ class Interp:
                     return None
                 return BoundMeth(obj, attr, clo)
             self.oos(f'unknown attribute {name}.{attr}', n)
+        CS = S.UNIONS.get('ColorSpec')
+        if CS is not None and z3.is_expr(obj) and obj.sort() == CS and attr in ('r', 'g', 'b'):
+            if not self.spec:
+                self.p.oblige('type', CS.is_c_rgb(obj), n, 'colour is an RGB triple')
+            return S.rec_get(CS.c_rgb__rgb(obj), attr)
         if isinstance(obj, Opaque):
             return self.opaque_attr(obj, attr, n)
         if isinstance(obj, ExcV):
@@ -2446,8 +2513,47 @@ BUILTINS = {
     'len', 'isinstance', 'bool', 'int', 'str', 'min', 'max', 'range', 'all', 'any', 'getattr', 'hasattr',
     'callable', 'next', 'iter', 'enumerate', 'abs', 'repr', 'sorted', 'hash', 'issubclass', 'super', 'print', 'id',
     'ord', 'chr', 'zip', 'sum', 'old', 'int_ok', 'uint_ok', 'float_ok', 'implies', 'type', 'dict_with', 'dict_get',
-    'dict_has', 'seq_eq', 'out_ok', 'out_frame', 'out_ret', 'out_cut', 'out_fail_frame', 'exc_inside', 'exc_is', 'boundcall', 'top_only', 'store', 'o_none', 'o_ok', 'same_func', 'ismethod', 'is_func', 'ast_walk', 'is_ok', 'is_err', 'ok_res', 'is_failure', 'grown', 'memo_ok', 'outcome_ok', 'submap', 'forall_keys', 'is_suffix',
+    'dict_has', 'seq_eq', 'out_ok', 'out_frame', 'out_ret', 'out_cut', 'out_fail_frame', 'exc_inside', 'exc_is', 'boundcall', 'top_only', 'store', 'o_none', 'o_ok', 'same_func', 'ismethod', 'is_func', 'ast_walk', 'format', 'is_ok', 'is_err', 'ok_res', 'is_failure', 'grown', 'memo_ok', 'outcome_ok', 'submap', 'forall_keys', 'is_suffix',
 }
+
+
+def _mergeable(s) -> bool:
+    """an if statement whose branches only assign locals / append to local lists (recursively)"""
+    def simple(stmts):
+        for st in stmts:
+            if isinstance(st, ast.If):
+                if not (simple(st.body) and simple(st.orelse)):
+                    return False
+            elif isinstance(st, (ast.Assign, ast.AugAssign, ast.AnnAssign)):
+                tg = st.targets if isinstance(st, ast.Assign) else [st.target]
+                if not all(isinstance(t, ast.Name) for t in tg):
+                    return False
+                if any(isinstance(x, (ast.Call, ast.NamedExpr, ast.Yield)) and not _pure_call(x) for x in ast.walk(st.value) if st.value is not None):
+                    return False
+            elif isinstance(st, ast.Expr) and isinstance(st.value, ast.Call) and isinstance(st.value.func, ast.Attribute) \
+                    and st.value.func.attr == 'append' and isinstance(st.value.func.value, ast.Name):
+                if any(isinstance(x, (ast.Call, ast.NamedExpr)) and not _pure_call(x) for a in st.value.args for x in ast.walk(a)):
+                    return False
+            elif isinstance(st, ast.Pass):
+                continue
+            else:
+                return False
+        return True
+
+    if any(isinstance(x, (ast.Call, ast.NamedExpr)) and not _pure_call(x) for x in ast.walk(s.test)):
+        return False
+    # only the plain accumulate shape  `if c: lst.append(x)`  is merged; decision ifs keep their precise paths
+    return len(s.body) == 1 and not s.orelse and simple(s.body) and _has_append_or_assign(s)
+
+
+def _pure_call(x) -> bool:
+    return isinstance(x, ast.Call) and isinstance(x.func, ast.Name) and x.func.id in ('str', 'len', 'isinstance', 'int', 'bool')
+
+
+def _has_append_or_assign(s) -> bool:
+    # only merge the "accumulate into a local" shape; ordinary decision ifs keep their precise paths
+    return any(isinstance(st, ast.Expr) for st in ast.walk(s) if isinstance(st, ast.Expr)) and \
+        any(isinstance(x, ast.Attribute) and x.attr == 'append' for x in ast.walk(s))
 
 
 def _has_quantifier(e, _cache={}) -> bool:
